@@ -479,18 +479,19 @@ Proof.
 Qed.
 
 (* ---- a further file: the parsed tree is merged into the model, and the result is the pure merge *)
-Theorem load_parsed_merge m filename root st w ta files r w' ha' :
+Theorem load_parsed_merge m filename root st w ta files r w' (P : htree -> Prop) :
   ModelTree w m ta files -> files <> [] ->
   let fid := N.of_nat (List.length (w_files w)) in
   let fl := mkFile m filename (Parser.p_version st) (Parser.p_standalone st) in
   let fver := fver_files (w_files w ++ [fl]) in
   (forall fuel, (adepth ta < fuel)%nat ->
      Clean T LATEST defref fver fuel (erase ta) (fold_right set_add [] files) (htree_of_etree root) fid /\
-     pmerge T LATEST defref fver fuel (erase ta) (fold_right set_add [] files) (htree_of_etree root) fid = Val (OK ha')) ->
+     exists ha', pmerge T LATEST defref fver fuel (erase ta) (fold_right set_add [] files) (htree_of_etree root) fid = Val (OK ha') /\
+                 P ha') ->
   load_parsed T LATEST defref m filename root st w = Val (r, w') ->
   r = ER OverlappingDataError \/
   (r = OK fid /\ w_files w' = w_files w ++ [fl] /\
-   exists ta', ModelTree w' m ta' (files ++ [fid]) /\ erase ta' = h_set_local ha' (set_add fid (h_local ha'))).
+   exists ta' ha', ModelTree w' m ta' (files ++ [fid]) /\ erase ta' = h_set_local ha' (set_add fid (h_local ha')) /\ P ha').
 Proof.
   intros ((x & Hx & Hroot & Hfiles) & HA & Hnd & Hb) Hne fid fl fver Hpure H.
   destruct (load_parsed_prefix m filename root st w r w' x H Hx)
@@ -505,7 +506,7 @@ Proof.
   { apply nodup_app_intro_g; auto. intros i Hi Hi2. apply Hb in Hi. apply Hrb in Hi2. lia. }
   assert (Hb1 : forall i, In i (aids ta) -> i < w_next w1') by (intros i Hi; cbn [w_next w1']; apply Hb in Hi; lia).
   pose proof (adepth_fuel ta w1' Hnd Hb1) as Hfuel.
-  destruct (Hpure (fuel_of w1') Hfuel) as (HC & Hp).
+  destruct (Hpure (fuel_of w1') Hfuel) as (HC & ha' & Hp & HP).
   assert (Efv : fver_of w1' = fver) by (unfold fver_of, fver; cbn [w_files w1']; rewrite A13; reflexivity).
   rewrite <- Eb, <- Efv, <- Hfiles in HC, Hp.
   destruct (merge_file_data_refines m x ta tb fid w1' ha' Hx1 Hroot HA1 HB1 Hnd2 HC Hp)
@@ -520,7 +521,163 @@ Proof.
     intros i Hi. rewrite Sn. cbn [w_next w1']. apply Hincl' in Hi. apply in_app_or in Hi as [Hi|Hi]; [apply Hb in Hi; lia|apply Hrb in Hi; lia]. }
   destruct (load_tail_ok m fid (w_next w) t st _ w1' wS _ files r w' Hstage MT Ht) as (-> & MT' & Hf' & Hn').
   split; [reflexivity|]. split; [rewrite Hf', Sf; cbn [w_files w1']; rewrite A13; reflexivity|].
-  exists ta'. split; [exact MT'|exact Ee'].
+  exists ta', ha'. split; [exact MT'|]. split; [exact Ee'|exact HP].
 Qed.
 
 End Steps.
+
+(* ====================================================================== the union on the heap model, class Good *)
+Section HeapUnion.
+Variable T : tables.
+Variables LATEST defref v : N.
+
+Lemma fold_set_add_sset l : sset (fold_right set_add [] l).
+Proof. induction l as [|x l IH]; cbn [fold_right]; [apply sset_nil|apply sset_set_add; exact IH]. Qed.
+Lemma fold_set_add_in l y : In y (fold_right set_add [] l) <-> In y l.
+Proof.
+  induction l as [|x l IH]; cbn [fold_right In]; [tauto|]. rewrite set_add_in, IH. split; intros [H|H]; auto.
+Qed.
+
+Lemma files_set_inF (F files : list N) : sset files -> incl F files -> fold_right set_add [] (rev F) = inF F files.
+Proof.
+  intros Hs Hi. apply sset_ext; [apply fold_set_add_sset|apply inF_sset; exact Hs|].
+  intros y. rewrite fold_set_add_in, <- in_rev, inF_in. split; [intros H; split; [apply Hi; exact H|exact H]|tauto].
+Qed.
+
+Lemma fver_files_app_old l fl f : (N.to_nat f < List.length l)%nat -> fver_files (l ++ [fl]) f = fver_files l f.
+Proof.
+  intros H. unfold fver_files. rewrite !nth_opt_nth_error, nth_error_app1 by exact H. reflexivity.
+Qed.
+Lemma fver_files_app_new l fl : fver_files (l ++ [fl]) (N.of_nat (List.length l)) = Some (f_version fl).
+Proof.
+  unfold fver_files. rewrite nth_opt_nth_error, Nat2N.id, nth_error_app2 by lia. rewrite PeanoNat.Nat.sub_diag. reflexivity.
+Qed.
+Lemma fver_files_some l f x : fver_files l f = Some x -> (N.to_nat f < List.length l)%nat.
+Proof.
+  unfold fver_files. rewrite nth_opt_nth_error. destruct (nth_error l (N.to_nat f)) eqn:E; [|discriminate].
+  intros _. apply nth_error_Some. congruence.
+Qed.
+
+Theorem heap_chain M m : Good T defref v M ->
+  forall gs F w ta os w',
+    ModelTree w m ta (rev F) -> F <> [] -> Rep T F None M (erase ta) ->
+    NoDup (gs ++ F) -> (forall g, In g (gs ++ F) -> In g (mfiles M)) ->
+    gs = n_range (List.length gs) (N.of_nat (List.length (w_files w))) ->
+    (forall f, In f F -> fver_files (w_files w) f = Some v) ->
+    load_views T LATEST defref m M (fun _ => v) gs w = Val (os, w') ->
+    Forall (fun o => o <> ER OverlappingDataError) os ->
+    Forall2 (fun g o => o = OK g) gs os /\
+    exists ta', ModelTree w' m ta' (rev F ++ gs) /\ Rep T (rev gs ++ F) None M (erase ta').
+Proof.
+  intros HG. destruct (Good_files T defref v M HG) as (Hs & _).
+  induction gs as [|g gs IH]; intros F w ta os w' MT HFne HR Hnd Hin Hgs Hver HL Hov.
+  - cbn [load_views] in HL. injection HL as <- <-. split; [constructor|]. exists ta. rewrite app_nil_r. cbn [rev app]. auto.
+  - cbn [load_views] in HL.
+    assert (Hg : In g (mfiles M)) by (apply Hin; left; reflexivity).
+    destruct (project_some g M (proj2 (set_mem_in _ _) Hg)) as (e & He). rewrite He in HL.
+    destruct (load_parsed T LATEST defref m (to_dec g) e (pstate_of T v e) w) as [[o w1]| |] eqn:EL; try discriminate.
+    destruct (load_views T LATEST defref m M (fun _ => v) gs w1) as [[os1 w2]| |] eqn:EL2; try discriminate.
+    injection HL as <- <-. inversion Hov as [|? ? Ho Hov1]; subst.
+    cbn [app] in Hnd. inversion Hnd as [|? ? Hnot Hnd']; subst.
+    assert (HgF : ~ In g F) by (intros H; apply Hnot; apply in_or_app; right; exact H).
+    cbn [List.length n_range] in Hgs. injection Hgs as Eg Egs.
+    pose proof (pview_project (depth M) M (le_n _) g e He) as Eview.
+    set (fl := mkFile m (to_dec g) (Parser.p_version (pstate_of T v e)) (Parser.p_standalone (pstate_of T v e))) in *.
+    set (fver := fver_files (w_files w ++ [fl])).
+    assert (Hfv : forall f, In f (g :: F) -> fver f = Some v).
+    { intros f [<-|Hf]; unfold fver.
+      - rewrite Eg. rewrite fver_files_app_new. reflexivity.
+      - rewrite fver_files_app_old; [apply Hver; exact Hf|]. eapply fver_files_some. apply Hver. exact Hf. }
+    assert (Hset : fold_right set_add [] (rev F) = inF F (mfiles M)).
+    { apply files_set_inF; [exact Hs|]. intros f Hf. apply Hin. right. apply in_or_app. right. exact Hf. }
+    pose (P := fun ha' : htree => h_local ha' = h_local (erase ta) /\
+                 forall inh', Rep T (g :: F) inh' M (h_set_local ha' (norm inh' (inF (g :: F) (mfiles M))))).
+    destruct (load_parsed_merge T LATEST defref m (to_dec g) e (pstate_of T v e) w ta (rev F) o w1 P MT) as [->|(-> & Hf1 & ta1 & ha' & MT1 & Ee1 & (Hl & Hr))].
+    { intros E. apply HFne. destruct F; [reflexivity|]. cbn [rev] in E. destruct (rev F); discriminate. }
+    { intros fuel Hfuel. fold fl. fold fver. rewrite Eview, Hset, <- Eg. split.
+      - apply (rep_clean T LATEST defref v fver fuel M HG F g None (erase ta) Hfv HgF Hg HR).
+      - destruct (pmerge_rep_gen T LATEST defref v fver fuel M HG F g None (erase ta)) as (a' & Ea' & Hla' & Hra'); auto.
+        { right. rewrite hdepth_erase. exact Hfuel. }
+        exists a'. split; [exact Ea'|]. split; assumption. }
+    { exact EL. }
+    { exfalso. apply Ho. reflexivity. }
+    (* the model after this load *)
+    destruct (Rep_shape T F None M (erase ta) HR) as (_ & _ & Hloc & _). cbn [norm] in Hloc.
+    specialize (Hr None). cbn [norm] in Hr. rewrite (inF_cons_in g F (mfiles M) Hs Hg HgF) in Hr.
+    assert (HR1 : Rep T (g :: F) None M (erase ta1)).
+    { rewrite Ee1, Hl, Hloc, <- Eg. exact Hr. }
+    fold fl in Hf1.
+    destruct (IH (g :: F) w1 ta1 os1 w2) as (F2 & ta2 & MT2 & HR2); auto.
+    + cbn [rev]. rewrite <- Eg in MT1. exact MT1.
+    + discriminate.
+    + apply NoDup_app_swap_cons. exact Hnd.
+    + intros g0 H0. apply Hin. apply in_app_or in H0 as [H0|[<-|H0]]; [right; apply in_or_app; left; exact H0|left; reflexivity|].
+      right. apply in_or_app. right. exact H0.
+    + rewrite Hf1, app_length. cbn [List.length]. rewrite Egs at 1. f_equal. lia.
+    + intros f [<-|Hf]; rewrite Hf1.
+      * rewrite Eg, fver_files_app_new. reflexivity.
+      * rewrite fver_files_app_old; [apply Hver; exact Hf|]. eapply fver_files_some. apply Hver. exact Hf.
+    + split; [constructor; [rewrite Eg; reflexivity|exact F2]|].
+      exists ta2. cbn [rev] in MT2. rewrite <- app_assoc in MT2. cbn [app] in MT2. split; [exact MT2|].
+      cbn [rev]. rewrite <- app_assoc. cbn [app]. exact HR2.
+Qed.
+
+
+Lemma ModelTree_abs_model w m ta files : ModelTree w m ta files -> abs_model w m = Some (erase ta).
+Proof.
+  intros ((x & Hx & Hroot & _) & HA & Hnd & Hb). unfold abs_model. rewrite Hx, Hroot.
+  apply abs_of_AbsA; [|exact HA]. pose proof (adepth_fuel ta w Hnd Hb) as H. unfold fuel_of in H. lia.
+Qed.
+
+(* Loading the partial views of a master M of the class Good into an empty model, files numbered in load order (the k-th
+   file gets the file id b + k, b = number of files the world had): no load can be rejected by the merge; when none is
+   rejected by the overlap check of the path index, every load succeeds and the tree of the model (read back from the
+   heap: abs_model) is the master restricted to the loaded files — every element exactly once, the local membership
+   normalised; it is the master up to the order of siblings when the files cover it, and every file projects out of it. *)
+Theorem heap_union M m x w0 n os w :
+  Good T defref v M ->
+  nth_opt (w_models w0) (N.to_nat m) = Some x -> m_files x = [] ->
+  let gs := n_range (S n) (N.of_nat (List.length (w_files w0))) in
+  (forall g, In g gs -> In g (mfiles M)) ->
+  load_views T LATEST defref m M (fun _ => v) gs w0 = Val (os, w) ->
+  Forall (fun o => o <> ER OverlappingDataError) os ->
+  Forall2 (fun g o => o = OK g) gs os /\
+  exists ta, ModelTree w m ta gs /\ abs_model w m = Some (erase ta) /\
+             Rep T (rev gs) None M (erase ta) /\
+             (covers gs M -> hperm (erase ta) (expected None M)) /\
+             (forall f, In f gs -> hperm (hproj f (erase ta)) (pview f M)).
+Proof.
+  intros HG Hx Hfx gs Hin HL Hov. unfold gs in *. cbn [n_range] in *.
+  set (g0 := N.of_nat (List.length (w_files w0))) in *. set (gr := n_range n (g0 + 1)) in *.
+  cbn [load_views] in HL.
+  assert (Hg0 : In g0 (mfiles M)) by (apply Hin; left; reflexivity).
+  destruct (project_some g0 M (proj2 (set_mem_in _ _) Hg0)) as (e & He). rewrite He in HL.
+  destruct (load_parsed T LATEST defref m (to_dec g0) e (pstate_of T v e) w0) as [[o w1]| |] eqn:EL; try discriminate.
+  destruct (load_views T LATEST defref m M (fun _ => v) gr w1) as [[os1 w2]| |] eqn:EL2; try discriminate.
+  injection HL as <- <-. inversion Hov as [|? ? Ho Hov1]; subst.
+  pose proof (pview_project (depth M) M (le_n _) g0 e He) as Eview.
+  destruct (load_parsed_first T LATEST defref m (to_dec g0) e (pstate_of T v e) w0 x o w1 Hx Hfx EL)
+    as [->|(-> & Hf1 & ta1 & MT1 & Ee1)]; [exfalso; apply Ho; reflexivity|].
+  fold g0 in MT1, Ee1. rewrite Eview in Ee1.
+  assert (HR1 : Rep T [g0] None M (erase ta1)).
+  { rewrite Ee1. apply (first_view_rep T defref v M g0 HG Hg0). }
+  assert (Hnd : NoDup (gr ++ [g0])).
+  { eapply Permutation_NoDup; [apply Permutation_app_comm|]. cbn [app]. apply (n_range_nodup (S n) g0). }
+  destruct (heap_chain M m HG gr [g0] w1 ta1 os1 w2) as (F2 & ta2 & MT2 & HR2); auto.
+  - discriminate.
+  - intros g Hg. apply Hin. apply in_app_or in Hg as [Hg|[<-|[]]]; [right; exact Hg|left; reflexivity].
+  - unfold gr at 1. rewrite Hf1, app_length. cbn [List.length]. f_equal.
+    + unfold gr. clear. generalize (g0 + 1). induction n as [|k IHk]; intros from; cbn [n_range List.length]; auto.
+    + fold g0. lia.
+  - intros f [<-|[]]. rewrite Hf1. unfold g0. rewrite fver_files_app_new. reflexivity.
+  - cbn [rev app] in MT2. split; [constructor; [reflexivity|exact F2]|].
+    exists ta2. split; [exact MT2|]. split; [eapply ModelTree_abs_model; exact MT2|].
+    assert (HR3 : Rep T (rev (g0 :: gr)) None M (erase ta2)) by (cbn [rev]; exact HR2).
+    split; [exact HR3|]. split.
+    + intros Hc. apply (Rep_expected T defref v (depth M) M (le_n _) HG (rev (g0 :: gr)) None (erase ta2)); [|intros p [=]|exact HR3].
+      apply (covers_incl (depth M) M (le_n _) (g0 :: gr)); [|exact Hc]. intros y Hy. apply in_rev in Hy. exact Hy.
+    + intros f Hf. apply (Rep_project T defref v (depth M) M (le_n _) HG (rev (g0 :: gr)) None (erase ta2) f); [|apply Hin; exact Hf|exact HR3].
+      exact (proj1 (in_rev _ _) Hf).
+Qed.
+
+End HeapUnion.
